@@ -25,192 +25,369 @@ Proof. intros. unfold get. apply app_nth1. assumption. Qed.
 Lemma get_app_new : forall (st : store) b, get (st ++ [b]) (length st) = b.
 Proof. intros. unfold get. rewrite app_nth2 by lia. rewrite Nat.sub_diag. reflexivity. Qed.
 
-(* the flag can only go from "may alias" to "fresh", never back *)
-Lemma post_le_pre : forall so p a x, safe so p a = Some x -> a = false -> x = false.
+(* ---- flags ---- *)
+
+Lemma setf_length : forall a x v, length (setf a x v) = length a.
+Proof. induction a as [|u t IH]; intros [|j] v; cbn; auto. Qed.
+
+Lemma fl_setf_other : forall a x y v, y <> x -> fl (setf a x v) y = fl a y.
 Proof.
-  induction p as [|h|g|g|p1 IH1 p2 IH2|c p1 IH1 p2 IH2|n body IH]; intros a x H Ha; cbn in H.
-  - congruence.
-  - congruence.
-  - subst a. congruence.
-  - destruct so; congruence.
-  - destruct (safe so p1 a) as [y|] eqn:E1; [|discriminate].
-    eapply IH2; [exact H|]. eapply IH1; eauto.
-  - destruct (safe so p1 a) as [y1|] eqn:E1; [|discriminate].
-    destruct (safe so p2 a) as [y2|] eqn:E2; [|discriminate].
-    injection H as <-. rewrite (IH1 _ _ E1 Ha), (IH2 _ _ E2 Ha). reflexivity.
-  - destruct (safe so body a); [|discriminate]. congruence.
+  unfold fl. induction a as [|u t IH]; intros [|x] [|y] v H; cbn; auto; try congruence.
 Qed.
 
-(* what holds of (store, current object) relative to the store st0 the call started from *)
-Definition okst (so : bool) (e : nat) (st0 : store) (a : bool) (st : store) (cur : nat) : Prop :=
-  length st0 <= length st /\ cur < length st /\ (a = false -> length st0 <= cur) /\
+Lemma fl_setf_same : forall a x v, fl (setf a x v) x = v \/ fl (setf a x v) x = top.
+Proof.
+  unfold fl. induction a as [|u t IH]; intros [|x] v; cbn; auto.
+Qed.
+
+Lemma fl_repeat_top : forall n x, fl (repeat top n) x = top.
+Proof.
+  unfold fl. induction n as [|n IH]; intros [|x]; cbn; auto.
+Qed.
+
+(* a <= b pointwise: b is the less precise (more "may alias") flag list *)
+Definition fle_all (a b : flags) : Prop :=
+  forall x, (fst (fl b x) = false -> fst (fl a x) = false) /\
+            (snd (fl b x) = false -> snd (fl a x) = false).
+
+Lemma fle_sound : forall a b, fle a b = true -> fle_all a b.
+Proof.
+  intros a b H x. unfold fle in H. apply andb_true_iff in H. destruct H as [Hl Hf].
+  apply Nat.eqb_eq in Hl. rewrite forallb_forall in Hf.
+  destruct (Nat.lt_ge_cases x (length a)) as [Hx|Hx].
+  - assert (Hin : In x (seq 0 (length a))) by (apply in_seq; lia).
+    specialize (Hf x Hin). unfold fle1 in Hf. apply andb_true_iff in Hf. destruct Hf as [H1 H2].
+    destruct (fl a x) as [c s], (fl b x) as [c' s']. cbn in *.
+    split; intro E; subst; [destruct c|destruct s]; cbn in *; congruence.
+  - assert (E : fl b x = top) by (unfold fl; apply nth_overflow; lia).
+    rewrite E. cbn. split; discriminate.
+Qed.
+
+Lemma nth_map_seq : forall (A : Type) (f : nat -> A) n x d, x < n -> nth x (map f (seq 0 n)) d = f x.
+Proof.
+  intros A f n x d H. rewrite (nth_indep _ d (f 0)) by (rewrite map_length, seq_length; exact H).
+  rewrite map_nth. rewrite seq_nth by exact H. reflexivity.
+Qed.
+
+Lemma fl_fjoin : forall a b x,
+  fl (fjoin a b) x = top \/
+  fl (fjoin a b) x = (fst (fl a x) || fst (fl b x), snd (fl a x) || snd (fl b x)).
+Proof.
+  intros a b x. destruct (Nat.lt_ge_cases x (length a)) as [Hx|Hx].
+  - right. unfold fjoin, fl at 1. rewrite nth_map_seq by exact Hx. reflexivity.
+  - left. unfold fjoin, fl at 1. apply nth_overflow. rewrite map_length, seq_length. exact Hx.
+Qed.
+
+Lemma fjoin_ge_l : forall a b, fle_all a (fjoin a b).
+Proof.
+  intros a b x. destruct (fl_fjoin a b x) as [E|E]; rewrite E; cbn.
+  - split; discriminate.
+  - split; intro H; apply orb_false_iff in H; tauto.
+Qed.
+
+Lemma fjoin_ge_r : forall a b, fle_all b (fjoin a b).
+Proof.
+  intros a b x. destruct (fl_fjoin a b x) as [E|E]; rewrite E; cbn.
+  - split; discriminate.
+  - split; intro H; apply orb_false_iff in H; tauto.
+Qed.
+
+(* ---- the invariant of a run, relative to the store st0 the call started from ---- *)
+
+Definition inv (so : bool) (e : nat) (st0 : store) (a : flags) (st : store) (en : env) : Prop :=
+  length st0 <= length st /\
+  (forall x, en x < length st) /\
+  (forall x, fst (fl a x) = false -> en x = e \/ length st0 <= en x) /\
+  (forall x, snd (fl a x) = false -> en x <> e) /\
   (forall i, i < length st0 -> i <> e -> get st i = get st0 i) /\
   (so = false -> get st e = get st0 e).
 
-Lemma okst_weaken : forall so e st0 a a' st cur,
-  (a' = false -> a = false) -> okst so e st0 a st cur -> okst so e st0 a' st cur.
-Proof. unfold okst. intros. intuition. Qed.
-
-Lemma iter_exec_ok : forall so e st0 a (f : store -> nat -> store * nat),
-  (forall st cur, okst so e st0 a st cur -> okst so e st0 a (fst (f st cur)) (snd (f st cur))) ->
-  forall k st cur, okst so e st0 a st cur ->
-  okst so e st0 a (fst (iter_exec k f st cur)) (snd (iter_exec k f st cur)).
+Lemma inv_weaken : forall so e st0 a a' st en,
+  fle_all a a' -> inv so e st0 a st en -> inv so e st0 a' st en.
 Proof.
-  intros so e st0 a f Hf. induction k as [|k IH]; intros st cur H; cbn; [exact H|].
-  specialize (Hf st cur H). destruct (f st cur) as [st1 c1]. cbn in Hf. apply IH. exact Hf.
+  intros so e st0 a a' st en Hle (H1 & H2 & H3 & H4 & H5 & H6).
+  repeat split; auto.
+  - intros x Hx. apply H3. apply (proj1 (Hle x)). exact Hx.
+  - intros x Hx. apply H4. apply (proj2 (Hle x)). exact Hx.
 Qed.
 
-Lemma exec_ok : forall so p a x, safe so p a = Some x ->
-  forall e st0 st cur, e < length st0 -> okst so e st0 a st cur ->
-  okst so e st0 x (fst (exec e p st cur)) (snd (exec e p st cur)).
+Lemma inv_set : forall so e st0 a st en x v i,
+  inv so e st0 a st en -> i < length st ->
+  (fst v = false -> i = e \/ length st0 <= i) -> (snd v = false -> i <> e) ->
+  inv so e st0 (setf a x v) st (setv en x i).
 Proof.
-  induction p as [|h|g|g|p1 IH1 p2 IH2|c p1 IH1 p2 IH2|n body IH];
-    intros a x Hs e st0 st cur He Hok; cbn in Hs.
+  intros so e st0 a st en x v i (H1 & H2 & H3 & H4 & H5 & H6) Hi Hc Hs.
+  repeat split; auto.
+  - intro y. unfold setv. destruct (Nat.eqb y x); auto.
+  - intros y Hy. unfold setv. destruct (Nat.eqb y x) eqn:E.
+    + apply Nat.eqb_eq in E. subst y. destruct (fl_setf_same a x v) as [Ev|Ev]; rewrite Ev in Hy.
+      * auto.
+      * discriminate.
+    + apply Nat.eqb_neq in E. rewrite fl_setf_other in Hy by exact E. auto.
+  - intros y Hy. unfold setv. destruct (Nat.eqb y x) eqn:E.
+    + apply Nat.eqb_eq in E. subst y. destruct (fl_setf_same a x v) as [Ev|Ev]; rewrite Ev in Hy.
+      * auto.
+      * discriminate.
+    + apply Nat.eqb_neq in E. rewrite fl_setf_other in Hy by exact E. auto.
+Qed.
+
+Lemma inv_alloc : forall so e st0 a st en b, e < length st0 ->
+  inv so e st0 a st en -> inv so e st0 a (st ++ [b]) en.
+Proof.
+  intros so e st0 a st en b He (H1 & H2 & H3 & H4 & H5 & H6).
+  unfold inv. rewrite app_length. cbn [length]. repeat split; auto.
+  - lia.
+  - intro x. specialize (H2 x). lia.
+  - intros i Hi Hne. rewrite get_app_old by lia. auto.
+  - intro Hso. rewrite get_app_old by lia. auto.
+Qed.
+
+Lemma iter_exec_ok : forall so e st0 a (f : store -> env -> store * env),
+  (forall st en, inv so e st0 a st en -> inv so e st0 a (fst (f st en)) (snd (f st en))) ->
+  forall k st en, inv so e st0 a st en ->
+  inv so e st0 a (fst (iter_exec k f st en)) (snd (iter_exec k f st en)).
+Proof.
+  intros so e st0 a f Hf. induction k as [|k IH]; intros st en H; cbn; [exact H|].
+  specialize (Hf st en H). destruct (f st en) as [st1 en1]. cbn in Hf. apply IH. exact Hf.
+Qed.
+
+Lemma exec_ok : forall so p a a', safe so p a = Some a' ->
+  forall nv e st0 st en, e < length st0 -> inv so e st0 a st en ->
+  inv so e st0 a' (fst (exec nv e p st en)) (snd (exec nv e p st en)).
+Proof.
+  induction p as [|x y|x|x h|x g|g|p1 IH1 p2 IH2|c p1 IH1 p2 IH2|n b IH];
+    intros a a' Hs nv e st0 st en He Hok; cbn in Hs.
   - injection Hs as <-. exact Hok.
-  - injection Hs as <-. destruct Hok as (Hl & Hc & Ha & Hk & Hself). cbn [exec alloc fst snd].
-    unfold okst. rewrite app_length. cbn [length]. repeat split.
-    + lia.
-    + lia.
-    + intros _. exact Hl.
-    + intros i Hi Hne. rewrite get_app_old by lia. apply Hk; assumption.
-    + intro Hso. rewrite get_app_old by lia. apply Hself. exact Hso.
-  - destruct a; [discriminate|]. injection Hs as <-.
-    destruct Hok as (Hl & Hc & Ha & Hk & Hself). specialize (Ha eq_refl).
-    cbn [exec fst snd]. unfold okst. rewrite update_length. repeat split; auto.
-    + intros i Hi Hne. rewrite get_update_other by lia. apply Hk; assumption.
-    + intro Hso. rewrite get_update_other by lia. apply Hself. exact Hso.
+  - injection Hs as <-. cbn [exec fst snd].
+    pose proof Hok as (H1 & H2 & H3 & H4 & H5 & H6). apply inv_set; auto.
+  - injection Hs as <-. cbn [exec fst snd].
+    pose proof Hok as (H1 & H2 & H3 & H4 & H5 & H6). apply inv_set; cbn; auto; try lia; try discriminate.
+  - injection Hs as <-. cbn [exec fst snd].
+    pose proof Hok as (H1 & H2 & H3 & H4 & H5 & H6).
+    apply inv_set.
+    + apply inv_alloc; assumption.
+    + rewrite app_length. cbn. lia.
+    + intros _. right. exact H1.
+    + intros _. lia.
+  - destruct (fst (fl a x)) eqn:Ec; [discriminate|].
+    destruct (snd (fl a x) && negb so) eqn:Es; [discriminate|]. injection Hs as <-.
+    destruct Hok as (H1 & H2 & H3 & H4 & H5 & H6). cbn [exec fst snd].
+    unfold inv. rewrite update_length. repeat split; auto.
+    + intros i Hi Hne. rewrite get_update_other; auto.
+      destruct (H3 x Ec) as [E|E]; [congruence|lia].
+    + intro Hso. subst so. rewrite andb_true_r in Es.
+      rewrite get_update_other; auto.
   - destruct so; [|discriminate]. injection Hs as <-.
-    destruct Hok as (Hl & Hc & Ha & Hk & Hself).
-    cbn [exec fst snd]. unfold okst. rewrite update_length. repeat split; auto.
-    + intros i Hi Hne. rewrite get_update_other by congruence. apply Hk; assumption.
+    destruct Hok as (H1 & H2 & H3 & H4 & H5 & H6). cbn [exec fst snd].
+    unfold inv. rewrite update_length. repeat split; auto.
+    + intros i Hi Hne. rewrite get_update_other by congruence. auto.
     + discriminate.
-  - destruct (safe so p1 a) as [y|] eqn:E1; [|discriminate].
-    specialize (IH1 _ _ E1 e st0 st cur He Hok). cbn [exec].
-    destruct (exec e p1 st cur) as [st1 c1]. cbn [fst snd] in IH1.
-    apply (IH2 _ _ Hs e st0 st1 c1 He IH1).
-  - destruct (safe so p1 a) as [y1|] eqn:E1; [|discriminate].
-    destruct (safe so p2 a) as [y2|] eqn:E2; [|discriminate].
-    injection Hs as <-. cbn [exec]. destruct (c (get st e) (get st cur)).
-    + eapply okst_weaken; [|apply (IH1 _ _ E1 e st0 st cur He Hok)].
-      intro H. apply orb_false_iff in H. tauto.
-    + eapply okst_weaken; [|apply (IH2 _ _ E2 e st0 st cur He Hok)].
-      intro H. apply orb_false_iff in H. tauto.
-  - destruct (safe so body a) as [y|] eqn:E; [|discriminate]. injection Hs as <-.
+  - destruct (safe so p1 a) as [a1|] eqn:E1; [|discriminate].
+    specialize (IH1 _ _ E1 nv e st0 st en He Hok). cbn [exec].
+    destruct (exec nv e p1 st en) as [st1 en1]. cbn [fst snd] in IH1.
+    apply (IH2 _ _ Hs nv e st0 st1 en1 He IH1).
+  - destruct (safe so p1 a) as [a1|] eqn:E1; [|discriminate].
+    destruct (safe so p2 a) as [a2|] eqn:E2; [|discriminate].
+    injection Hs as <-. cbn [exec]. destruct (c (get st e) (view nv st en)).
+    + eapply inv_weaken; [apply fjoin_ge_l|]. apply (IH1 _ _ E1 nv e st0 st en He Hok).
+    + eapply inv_weaken; [apply fjoin_ge_r|]. apply (IH2 _ _ E2 nv e st0 st en He Hok).
+  - destruct (safe so b a) as [a1|] eqn:E1; [|discriminate].
+    destruct (fle a1 a) eqn:El; [|discriminate]. injection Hs as <-.
     cbn [exec]. apply iter_exec_ok; [|exact Hok].
-    intros st' cur' H'. eapply okst_weaken; [|apply (IH _ _ E e st0 st' cur' He H')].
-    intro Ha. eapply post_le_pre; eauto.
+    intros st' en' H'. eapply inv_weaken; [apply fle_sound; exact El|].
+    apply (IH _ _ E1 nv e st0 st' en' He H').
 Qed.
 
-Lemma okst_init : forall so e st0 c, c < length st0 -> okst so e st0 true st0 c.
-Proof. unfold okst. intros. repeat split; auto; discriminate. Qed.
+Lemma inv_init : forall so e st0 nv c, c < length st0 ->
+  inv so e st0 (repeat top nv) st0 (fun _ => c).
+Proof.
+  intros. unfold inv. repeat split; auto; intros x Hx; rewrite fl_repeat_top in Hx; discriminate.
+Qed.
 
-Lemma is_safe_inv : forall so p, is_safe so p = true -> exists x, safe so p true = Some x.
-Proof. unfold is_safe. intros so p H. destruct (safe so p true); [eauto|discriminate]. Qed.
+Lemma is_safe_inv : forall so m, is_safe so m = true ->
+  exists a', safe so (body m) (repeat top (nvars m)) = Some a'.
+Proof.
+  unfold is_safe. intros so m H. destruct (safe so (body m) _); [eauto|discriminate].
+Qed.
+
+Lemma apply_inv : forall so m, is_safe so m = true ->
+  forall e st0 caller, e < length st0 -> caller < length st0 ->
+  exists a', inv so e st0 a' (fst (exec (nvars m) e (body m) st0 (fun _ => caller)))
+                             (snd (exec (nvars m) e (body m) st0 (fun _ => caller))).
+Proof.
+  intros so m Hs e st0 c He Hc. destruct (is_safe_inv _ _ Hs) as [a' Ha]. exists a'.
+  apply (exec_ok _ _ _ _ Ha (nvars m) e st0 st0 (fun _ => c) He). apply inv_init. exact Hc.
+Qed.
 
 (* fit or apply: no buffer the caller owns is touched *)
-Lemma preserves_caller_buffers : forall so p, is_safe so p = true ->
+Lemma preserves_caller_buffers : forall so m, is_safe so m = true ->
   forall e st0 caller, e < length st0 -> caller < length st0 ->
-  forall i, i < length st0 -> i <> e -> get (fst (apply e p st0 caller)) i = get st0 i.
+  forall i, i < length st0 -> i <> e -> get (fst (apply e m st0 caller)) i = get st0 i.
 Proof.
-  intros so p Hs e st0 c He Hc i Hi Hne. destruct (is_safe_inv _ _ Hs) as [x Hx].
-  destruct (exec_ok _ _ _ _ Hx e st0 st0 c He (okst_init _ _ _ _ Hc)) as (_ & _ & _ & Hk & _).
-  apply Hk; assumption.
+  intros so m Hs e st0 c He Hc i Hi Hne.
+  destruct (apply_inv so m Hs e st0 c He Hc) as (a' & _ & _ & _ & _ & Hk & _).
+  unfold apply. cbn [fst]. apply Hk; assumption.
 Qed.
 
 (* apply-type methods: the estimator's state is not touched either *)
-Lemma preserves_estimator_state : forall p, is_safe false p = true ->
+Lemma preserves_estimator_state : forall m, is_safe false m = true ->
   forall e st0 caller, e < length st0 -> caller < length st0 ->
-  get (fst (apply e p st0 caller)) e = get st0 e.
+  get (fst (apply e m st0 caller)) e = get st0 e.
 Proof.
-  intros p Hs e st0 c He Hc. destruct (is_safe_inv _ _ Hs) as [x Hx].
-  destruct (exec_ok _ _ _ _ Hx e st0 st0 c He (okst_init _ _ _ _ Hc)) as (_ & _ & _ & _ & Hself).
-  apply Hself. reflexivity.
+  intros m Hs e st0 c He Hc.
+  destruct (apply_inv false m Hs e st0 c He Hc) as (a' & _ & _ & _ & _ & _ & Hself).
+  unfold apply. cbn [fst]. apply Hself. reflexivity.
 Qed.
 
-Lemma apply_store_grows : forall so p, is_safe so p = true ->
+Lemma apply_store_grows : forall so m, is_safe so m = true ->
   forall e st0 caller, e < length st0 -> caller < length st0 ->
-  length st0 <= length (fst (apply e p st0 caller)) /\
-  snd (apply e p st0 caller) < length (fst (apply e p st0 caller)).
+  length st0 <= length (fst (apply e m st0 caller)) /\
+  snd (apply e m st0 caller) < length (fst (apply e m st0 caller)).
 Proof.
-  intros so p Hs e st0 c He Hc. destruct (is_safe_inv _ _ Hs) as [x Hx].
-  destruct (exec_ok _ _ _ _ Hx e st0 st0 c He (okst_init _ _ _ _ Hc)) as (H1 & H2 & _).
-  split; assumption.
+  intros so m Hs e st0 c He Hc.
+  destruct (apply_inv so m Hs e st0 c He Hc) as (a' & H1 & H2 & _).
+  unfold apply. cbn [fst snd]. split; [exact H1|apply H2].
 Qed.
 
-(* ---- the result is a pure function of (estimator state, caller's data) ---- *)
+(* ---- the result is a function of (estimator state, caller's data) only ---- *)
 
-Fixpoint noself (p : prog) : bool :=
-  match p with
-  | PSelf _ => false
-  | PSeq a b | PIf _ a b => noself a && noself b
-  | PLoop _ b => noself b
-  | _ => true
-  end.
+(* two runs of the same program, on stores that agree on the estimator's state and on the
+   caller's data (and may differ in everything else, ids included), stay in step: the objects
+   allocated so far have pairwise equal contents and every variable refers to corresponding
+   objects *)
+Definition sim (e caller n : nat) (st : store) (en : env)
+               (e' caller' n' : nat) (st' : store) (en' : env) : Prop :=
+  exists k, length st = n + k /\ length st' = n' + k /\
+    (forall j, j < k -> get st (n + j) = get st' (n' + j)) /\
+    get st e = get st' e' /\ get st caller = get st' caller' /\
+    (forall x, (en x = caller /\ en' x = caller') \/ (en x = e /\ en' x = e') \/
+               (exists j, j < k /\ en x = n + j /\ en' x = n' + j)).
 
-Lemma safe_noself : forall p a x, safe false p a = Some x -> noself p = true.
+Lemma sim_get : forall e c n st en e' c' n' st' en' x,
+  sim e c n st en e' c' n' st' en' -> get st (en x) = get st' (en' x).
 Proof.
-  induction p as [|h|g|g|p1 IH1 p2 IH2|c p1 IH1 p2 IH2|n body IH]; intros a x H; cbn in *; auto.
-  - discriminate.
-  - destruct (safe false p1 a) as [y|] eqn:E1; [|discriminate].
-    rewrite (IH1 _ _ E1), (IH2 _ _ H). reflexivity.
-  - destruct (safe false p1 a) as [y1|] eqn:E1; [|discriminate].
-    destruct (safe false p2 a) as [y2|] eqn:E2; [|discriminate].
-    rewrite (IH1 _ _ E1), (IH2 _ _ E2). reflexivity.
-  - destruct (safe false body a) as [y|] eqn:E; [|discriminate]. eapply IH; eauto.
+  intros e c n st en e' c' n' st' en' x (k & _ & _ & Hf & He & Hc & Hen).
+  destruct (Hen x) as [[-> ->]|[[-> ->]|(j & Hj & -> & ->)]]; auto.
 Qed.
 
-Definition content (e : nat) (eb : buf) (st : store) (cur : nat) : Prop :=
-  e < length st /\ cur < length st /\ cur <> e /\ get st e = eb.
-
-Lemma iter_exec_run : forall e eb (f : store -> nat -> store * nat) (r : buf -> buf),
-  (forall st cur, content e eb st cur ->
-     content e eb (fst (f st cur)) (snd (f st cur)) /\
-     get (fst (f st cur)) (snd (f st cur)) = r (get st cur)) ->
-  forall k st cur, content e eb st cur ->
-    content e eb (fst (iter_exec k f st cur)) (snd (iter_exec k f st cur)) /\
-    get (fst (iter_exec k f st cur)) (snd (iter_exec k f st cur)) = iter_run k r (get st cur).
+Lemma sim_view : forall nv e c n st en e' c' n' st' en',
+  sim e c n st en e' c' n' st' en' -> view nv st en = view nv st' en'.
 Proof.
-  intros e eb f r Hf. induction k as [|k IH]; intros st cur H; cbn; [auto|].
-  destruct (Hf st cur H) as [H1 H2]. destruct (f st cur) as [st1 c1]. cbn [fst snd] in *.
-  destruct (IH st1 c1 H1) as [H3 H4]. split; [exact H3|]. rewrite H4, H2. reflexivity.
+  intros. unfold view. apply map_ext. intro x. eapply sim_get; eauto.
 Qed.
 
-Lemma exec_run : forall p, noself p = true ->
-  forall e eb st cur, content e eb st cur ->
-    content e eb (fst (exec e p st cur)) (snd (exec e p st cur)) /\
-    get (fst (exec e p st cur)) (snd (exec e p st cur)) = run p eb (get st cur).
+Lemma sim_e : forall e c n st en e' c' n' st' en',
+  sim e c n st en e' c' n' st' en' -> get st e = get st' e'.
+Proof. intros e c n st en e' c' n' st' en' (k & _ & _ & _ & He & _). exact He. Qed.
+
+Section Sim.
+  Variables (nv e caller : nat) (st0 : store) (e' caller' n' : nat).
+  Hypothesis He : e < length st0.
+  Hypothesis Hc : caller < length st0.
+  Hypothesis Hec : e <> caller.
+  Hypothesis He' : e' < n'.
+  Hypothesis Hc' : caller' < n'.
+
+  Definition both (a : flags) (st : store) (en : env) (st' : store) (en' : env) : Prop :=
+    inv false e st0 a st en /\ sim e caller (length st0) st en e' caller' n' st' en'.
+
+  Lemma iter_exec_both : forall a (f f' : store -> env -> store * env),
+    (forall st en st' en', both a st en st' en' ->
+       both a (fst (f st en)) (snd (f st en)) (fst (f' st' en')) (snd (f' st' en'))) ->
+    forall k st en st' en', both a st en st' en' ->
+    both a (fst (iter_exec k f st en)) (snd (iter_exec k f st en))
+           (fst (iter_exec k f' st' en')) (snd (iter_exec k f' st' en')).
+  Proof.
+    intros a f f' Hf. induction k as [|k IH]; intros st en st' en' H; cbn; [exact H|].
+    specialize (Hf st en st' en' H).
+    destruct (f st en) as [st1 en1]. destruct (f' st' en') as [st1' en1']. cbn [fst snd] in Hf.
+    apply IH. exact Hf.
+  Qed.
+
+  Lemma exec_both : forall p a a', safe false p a = Some a' ->
+    forall st en st' en', both a st en st' en' ->
+    both a' (fst (exec nv e p st en)) (snd (exec nv e p st en))
+            (fst (exec nv e' p st' en')) (snd (exec nv e' p st' en')).
+  Proof.
+    induction p as [|x y|x|x h|x g|g|p1 IH1 p2 IH2|c p1 IH1 p2 IH2|n b IH];
+      intros a a' Hs st en st' en' [Hi Hsim];
+      (split; [apply (exec_ok false _ _ _ Hs nv e st0 st en He Hi)|]); cbn in Hs.
+    - exact Hsim.
+    - cbn [exec fst snd]. destruct Hsim as (k & L1 & L2 & Hf & Hee & Hcc & Hen).
+      exists k. repeat split; auto. intro z. unfold setv. destruct (Nat.eqb z x); auto.
+    - cbn [exec fst snd]. destruct Hsim as (k & L1 & L2 & Hf & Hee & Hcc & Hen).
+      exists k. repeat split; auto. intro z. unfold setv. destruct (Nat.eqb z x); auto.
+    - cbn [exec fst snd].
+      rewrite (sim_view nv _ _ _ _ _ _ _ _ _ _ Hsim), (sim_e _ _ _ _ _ _ _ _ _ _ Hsim).
+      destruct Hi as (I1 & _).
+      destruct Hsim as (k & L1 & L2 & Hf & Hee & Hcc & Hen).
+      exists (S k). rewrite !app_length. cbn [length]. repeat split; try lia.
+      + intros j Hj. destruct (Nat.eq_dec j k) as [->|Hne].
+        * rewrite <- L1, <- L2, !get_app_new. reflexivity.
+        * rewrite !get_app_old by lia. apply Hf. lia.
+      + rewrite !get_app_old by lia. exact Hee.
+      + rewrite !get_app_old by lia. exact Hcc.
+      + intro z. unfold setv. destruct (Nat.eqb z x).
+        * right. right. exists k. repeat split; lia.
+        * destruct (Hen z) as [H|[H|(j & Hj & H1 & H2)]]; auto.
+          right. right. exists j. repeat split; auto.
+    - destruct (fst (fl a x)) eqn:Ec; [discriminate|].
+      destruct (snd (fl a x)) eqn:Es; cbn in Hs; [discriminate|]. cbn [exec fst snd].
+      rewrite (sim_view nv _ _ _ _ _ _ _ _ _ _ Hsim), (sim_e _ _ _ _ _ _ _ _ _ _ Hsim).
+      destruct Hi as (I1 & I2 & I3 & I4 & _).
+      assert (Hfresh : length st0 <= en x).
+      { destruct (I3 x Ec) as [E|E]; [|exact E]. exfalso. exact (I4 x Es E). }
+      destruct Hsim as (k & L1 & L2 & Hf & Hee & Hcc & Hen).
+      destruct (Hen x) as [[E _]|[[E _]|(j & Hj & E1 & E2)]]; [lia|lia|].
+      rewrite E1, E2. exists k. rewrite !update_length. repeat split; auto.
+      + intros j2 Hj2. destruct (Nat.eq_dec j2 j) as [->|Hne].
+        * rewrite !get_update_same by lia. reflexivity.
+        * rewrite !get_update_other by lia. apply Hf. exact Hj2.
+      + rewrite !get_update_other by lia. exact Hee.
+      + rewrite !get_update_other by lia. exact Hcc.
+    - discriminate.
+    - destruct (safe false p1 a) as [a1|] eqn:E1; [|discriminate].
+      specialize (IH1 _ _ E1 st en st' en' (conj Hi Hsim)). cbn [exec].
+      destruct (exec nv e p1 st en) as [st1 en1]. destruct (exec nv e' p1 st' en') as [st1' en1'].
+      cbn [fst snd] in IH1. apply (IH2 _ _ Hs st1 en1 st1' en1' IH1).
+    - destruct (safe false p1 a) as [a1|] eqn:E1; [|discriminate].
+      destruct (safe false p2 a) as [a2|] eqn:E2; [|discriminate].
+      injection Hs as <-. cbn [exec].
+      rewrite (sim_view nv _ _ _ _ _ _ _ _ _ _ Hsim), (sim_e _ _ _ _ _ _ _ _ _ _ Hsim).
+      destruct (c (get st' e') (view nv st' en')).
+      + apply (IH1 _ _ E1 st en st' en' (conj Hi Hsim)).
+      + apply (IH2 _ _ E2 st en st' en' (conj Hi Hsim)).
+    - destruct (safe false b a) as [a1|] eqn:E1; [|discriminate].
+      destruct (fle a1 a) eqn:El; [|discriminate]. injection Hs as <-. cbn [exec].
+      rewrite (sim_view nv _ _ _ _ _ _ _ _ _ _ Hsim), (sim_e _ _ _ _ _ _ _ _ _ _ Hsim).
+      refine (proj2 (iter_exec_both a _ _ _ _ st en st' en' (conj Hi Hsim))).
+      intros s1 n1 s1' n1' Hb. destruct (IH _ _ E1 s1 n1 s1' n1' Hb) as [Hi1 Hs1].
+      split; [|exact Hs1]. eapply inv_weaken; [apply fle_sound; exact El|exact Hi1].
+  Qed.
+End Sim.
+
+(* the result of a safe apply depends only on the contents of the estimator's state and of the
+   caller's data: two stores that agree on these two buffers (and differ in anything else, the
+   buffer ids included) give results with equal contents *)
+Lemma apply_result_function_of_state_and_data : forall m, is_safe false m = true ->
+  forall e st caller e' st' caller',
+  e < length st -> caller < length st -> e <> caller ->
+  e' < length st' -> caller' < length st' ->
+  get st e = get st' e' -> get st caller = get st' caller' ->
+  get (fst (apply e m st caller)) (snd (apply e m st caller)) =
+  get (fst (apply e' m st' caller')) (snd (apply e' m st' caller')).
 Proof.
-  induction p as [|h|g|g|p1 IH1 p2 IH2|c p1 IH1 p2 IH2|n body IH];
-    intros Hn e eb st cur Hc; cbn in Hn.
-  - cbn. auto.
-  - destruct Hc as (He & Hcur & Hne & Heb). cbn [exec alloc fst snd run]. unfold content.
-    rewrite app_length. cbn [length]. rewrite get_app_new, get_app_old by lia.
-    rewrite Heb. repeat split; try lia; try reflexivity.
-  - destruct Hc as (He & Hcur & Hne & Heb). cbn [exec fst snd run]. unfold content.
-    rewrite update_length, get_update_same by lia. rewrite get_update_other by lia.
-    rewrite Heb. repeat split; auto.
-  - discriminate.
-  - apply andb_true_iff in Hn. destruct Hn as [Hn1 Hn2].
-    destruct (IH1 Hn1 e eb st cur Hc) as [H1 H2]. cbn [exec run].
-    destruct (exec e p1 st cur) as [st1 c1]. cbn [fst snd] in *.
-    destruct (IH2 Hn2 e eb st1 c1 H1) as [H3 H4]. split; [exact H3|]. rewrite H4, H2. reflexivity.
-  - apply andb_true_iff in Hn. destruct Hn as [Hn1 Hn2]. cbn [exec run].
-    assert (Heb : get st e = eb) by (destruct Hc as (_ & _ & _ & H); exact H).
-    rewrite Heb. destruct (c eb (get st cur)); [apply IH1|apply IH2]; assumption.
-  - cbn [exec run]. assert (Heb : get st e = eb) by (destruct Hc as (_ & _ & _ & H); exact H).
-    rewrite Heb. apply iter_exec_run; [|exact Hc]. intros st' cur' H'. apply IH; assumption.
+  intros m Hs e st c e' st' c' He Hc Hec He' Hc' Ee Ec.
+  destruct (is_safe_inv _ _ Hs) as [a' Ha].
+  assert (H0 : both e c st e' c' (length st') (repeat top (nvars m)) st (fun _ => c) st' (fun _ => c')).
+  { split; [apply inv_init; exact Hc|]. exists 0. rewrite !Nat.add_0_r.
+    repeat split; auto. intros j Hj. lia. }
+  destruct (exec_both (nvars m) e c st e' c' (length st') He Hc Hec He' Hc' _ _ _ Ha _ _ _ _ H0)
+    as [_ Hsim].
+  unfold apply. cbn [fst snd]. eapply sim_get. exact Hsim.
 Qed.
 
-(* the result of a safe apply, as contents *)
-Lemma apply_result : forall p, is_safe false p = true ->
-  forall e st caller, e < length st -> caller < length st -> caller <> e ->
-  get (fst (apply e p st caller)) (snd (apply e p st caller)) = run p (get st e) (get st caller).
-Proof.
-  intros p Hs e st c He Hc Hne. destruct (is_safe_inv _ _ Hs) as [x Hx].
-  apply (exec_run p (safe_noself _ _ _ Hx) e (get st e) st c). unfold content. auto.
-Qed.
-
-Definition valid_history (e : nat) (st0 : store) (hs : list (prog * nat)) : Prop :=
+Definition valid_history (e : nat) (st0 : store) (hs : list (method * nat)) : Prop :=
   Forall (fun qc => is_safe false (fst qc) = true /\ snd qc < length st0) hs.
 
 Lemma play_preserves : forall e hs st0 st, e < length st0 -> valid_history e st0 hs ->
@@ -220,29 +397,40 @@ Lemma play_preserves : forall e hs st0 st, e < length st0 -> valid_history e st0
 Proof.
   intros e hs st0. induction hs as [|[q c] t IH]; intros st He Hv Hl Hk; cbn [play]; [auto|].
   inversion Hv as [|? ? [Hq Hc] Hv']; subst. cbn [fst snd] in *.
-  destruct (is_safe_inv _ _ Hq) as [x Hx].
-  assert (Hok : okst false e st true st c) by (apply okst_init; lia).
-  destruct (exec_ok _ _ _ _ Hx e st st c ltac:(lia) Hok) as (H1 & _ & _ & H4 & H5).
+  assert (He2 : e < length st) by lia. assert (Hc2 : c < length st) by lia.
+  pose proof (apply_store_grows false q Hq e st c He2 Hc2) as [G _].
   apply IH; auto; [lia|].
   intros i Hi. destruct (Nat.eq_dec i e) as [->|Hne].
-  - rewrite H5 by reflexivity. apply Hk. exact Hi.
-  - rewrite H4 by lia. apply Hk. exact Hi.
+  - rewrite (preserves_estimator_state q Hq e st c He2 Hc2). apply Hk. exact Hi.
+  - rewrite (preserves_caller_buffers false q Hq e st c He2 Hc2 i) by lia. apply Hk. exact Hi.
 Qed.
 
 (* repeat the call after ANY history of safe apply-type calls: same result *)
-Lemma history_independent : forall p, is_safe false p = true ->
+Lemma history_independent : forall m, is_safe false m = true ->
   forall e st0 caller hs, e < length st0 -> caller < length st0 -> caller <> e ->
   valid_history e st0 hs ->
   let st := play e hs st0 in
-  get (fst (apply e p st caller)) (snd (apply e p st caller)) =
-  get (fst (apply e p st0 caller)) (snd (apply e p st0 caller)).
+  get (fst (apply e m st caller)) (snd (apply e m st caller)) =
+  get (fst (apply e m st0 caller)) (snd (apply e m st0 caller)).
 Proof.
-  intros p Hs e st0 c hs He Hc Hne Hv st.
+  intros m Hs e st0 c hs He Hc Hne Hv st.
   destruct (play_preserves e hs st0 st0 He Hv (le_n _) (fun _ _ => eq_refl)) as [Hl Hk].
   fold st in Hl, Hk.
-  rewrite (apply_result p Hs e st c) by lia.
-  rewrite (apply_result p Hs e st0 c) by lia.
-  rewrite (Hk e He), (Hk c Hc). reflexivity.
+  apply (apply_result_function_of_state_and_data m Hs e st c e st0 c); try lia; auto.
+Qed.
+
+(* the result is never the caller's object when the returned variable is flagged fresh *)
+Lemma result_is_new_object : forall m a', 
+  safe false (body m) (repeat top (nvars m)) = Some a' -> fl a' (ret m) = (false, false) ->
+  forall e st0 caller, e < length st0 -> caller < length st0 ->
+  length st0 <= snd (apply e m st0 caller).
+Proof.
+  intros m a' Ha Hr e st0 c He Hc.
+  pose proof (exec_ok _ _ _ _ Ha (nvars m) e st0 st0 (fun _ => c) He (inv_init _ _ _ _ _ Hc))
+    as (_ & _ & H3 & H4 & _).
+  unfold apply. cbn [snd].
+  destruct (H3 (ret m)) as [E|E]; [rewrite Hr; reflexivity| |exact E].
+  exfalso. apply (H4 (ret m)); [rewrite Hr; reflexivity|exact E].
 Qed.
 
 (* ================================================================================ (ii) *)
@@ -590,15 +778,7 @@ Proof.
   - exact (get_intervals_in_range St randint Hr k mi sl s l s' Hmi H).
 Qed.
 
-(* ================================================================ the anchored shapes *)
-
-Lemma hampel_now_is_safe : forall copy h g isf rb nc nw,
-  is_safe false (hampel_now copy h g isf rb nc nw) = true.
-Proof. intros. reflexivity. Qed.
-
-Lemma hampel_old_is_rejected : forall h g isf rb nc nw,
-  is_safe false (hampel_old h g isf rb nc nw) = false.
-Proof. intros. reflexivity. Qed.
+(* ================================================================ the generic shapes *)
 
 Lemma copy_first_is_safe : forall h, is_safe false (copy_first h) = true.
 Proof. intros. reflexivity. Qed.
@@ -606,26 +786,44 @@ Proof. intros. reflexivity. Qed.
 Lemma fit_shape_is_safe_for_fit : forall h g, is_safe true (fit_shape h g) = true.
 Proof. intros. reflexivity. Qed.
 
-Lemma imputer_safe_iff : forall h g fitg mv nc m frame,
-  is_safe false (imputer h g fitg mv nc m frame) = true <->
-  ~ (m = MRandom /\ frame = true) /\ m <> MForecaster.
+(* the analysis is not trivially accepting: a fit-shaped method is rejected as an apply-type
+   method, and so are the three shapes /repo had before the repairs *)
+Lemma fit_shape_rejected_as_apply : forall h g, is_safe false (fit_shape h g) = false.
+Proof. intros. reflexivity. Qed.
+
+Lemma old_shapes_rejected : forall h g isframe ncols,
+  is_safe false (old_inplace_loop g ncols) = false /\
+  is_safe false (old_random_frame h g isframe ncols) = false /\
+  is_safe false (old_fits_own_param h g) = false.
+Proof. intros. repeat split; reflexivity. Qed.
+
+(* the returned variable is flagged "new object" by the analysis *)
+Lemma returns_fresh_sound : forall m, returns_fresh m = true ->
+  forall e st0 caller, e < length st0 -> caller < length st0 ->
+  length st0 <= snd (apply e m st0 caller).
 Proof.
-  intros h g fitg mv nc m frame. destruct m, frame; cbn; split; intro H;
-    try reflexivity; try discriminate;
-    try (split; [intros [? ?]; discriminate | discriminate]);
-    try (destruct H as [H1 H2]; exfalso; (apply H1; split; reflexivity) || (apply H2; reflexivity)).
+  intros m H e st0 c He Hc. unfold returns_fresh in H.
+  destruct (safe false (body m) (repeat top (nvars m))) as [a'|] eqn:Ha; [|discriminate].
+  apply (result_is_new_object m a' Ha); auto.
+  destruct (fl a' (ret m)) as [x y]. cbn in H. apply andb_true_iff in H. destruct H as [H1 H2].
+  apply negb_true_iff in H1, H2. subst. reflexivity.
 Qed.
 
-(* a concrete non-trivial instance of the hypotheses used throughout *)
+(* a concrete non-trivial instance of the hypotheses used throughout: a copy-first program that
+   really writes (into its copy, through a view variable) and conditionally re-derives *)
 Definition ex_store : store := [[60; 2; 3]%Z; [7]%Z; [1; 1]%Z].
-Definition ex_hampel : prog :=
-  hampel_now (fun _ cb => cb) (fun _ cb => map (Z.add 1) cb) (fun _ cb => 1%Z :: tl cb)
-             (fun _ _ => false) (fun _ _ => false) (fun _ _ => 1) (fun _ cb => List.length cb).
+Definition ex_prog : method :=
+  {| nvars := 2; ret := 0;
+     body := SSeq (SAlias 0 0)
+            (SSeq (SFresh 0 (fun _ v => nth 0 v []))
+            (SSeq (SAlias 1 0)
+            (SSeq (SLoop (fun _ v => List.length (nth 0 v [])) (SWrite 1 (fun _ v => 1%Z :: tl (nth 1 v []))))
+                  (SIf (fun _ _ => false) (SFresh 0 (fun _ v => map (Z.add 1) (nth 0 v []))) SSkip)))) |}.
 
 Lemma ex_nonvacuous :
-  is_safe false ex_hampel = true /\
-  fst (apply 1 ex_hampel ex_store 0) = ex_store ++ [[1; 2; 3]%Z] /\
-  snd (apply 1 ex_hampel ex_store 0) = 3 /\
+  is_safe false ex_prog = true /\
+  fst (apply 1 ex_prog ex_store 0) = ex_store ++ [[1; 2; 3]%Z] /\
+  snd (apply 1 ex_prog ex_store 0) = 3 /\
   complete 3 [2; 0; 2; 1] /\
   parallel_map (pure_task (St := unit) (Z.mul 2)) [5; 6; 7]%Z tt [2; 0; 2; 1] = Some [10; 12; 14]%Z /\
   collect (snd (run_pool2 (Z.mul 2) [5; 6; 7]%Z
